@@ -111,6 +111,19 @@ fn main() {
         let n = 700;
         let es: Vec<(usize, usize)> = (0..n - 1).rev().map(|i| (i, i + 1)).collect();
         if !check1_large(n, &es, "chain of 700, edges declared back to front") { std::process::exit(1); }
+        // sparse graphs on which a FIFO relaxation revisits long chains: a root with an edge to every function declared
+        // before the chain 1 -> 2 -> .. -> n-1; a chain with skip edges i -> i+2, chain edges declared first (both id orders)
+        for n in [60usize, 120, 240] {
+            let mut es: Vec<(usize, usize)> = (1..n).map(|i| (0, i)).collect();
+            es.extend((1..n - 1).map(|i| (i, i + 1)));
+            if !check1_large(n, &es, &format!("root shortcuts then chain, n={n}")) { std::process::exit(1); }
+            let mut es: Vec<(usize, usize)> = (0..n - 1).map(|i| (i, i + 1)).collect();
+            es.extend((0..n - 2).map(|i| (i, i + 2)));
+            if !check1_large(n, &es, &format!("chain then skip edges, n={n}")) { std::process::exit(1); }
+            let es2: Vec<(usize, usize)> = es.iter().map(|&(a, b)| (n - 1 - a, n - 1 - b)).map(|(a, b)| (a, b)).collect();
+            // reversed ids: edge a->b becomes (n-1-a) -> (n-1-b), i.e. from higher to lower ids
+            if !check1_large(n, &es2, &format!("chain then skip edges with reversed ids, n={n}")) { std::process::exit(1); }
+        }
         for round in 0..6 {
             let n = 300;
             let mut label: Vec<usize> = (0..n).collect();
